@@ -2,8 +2,11 @@ package cli
 
 import (
 	"fmt"
+	"regexp"
 	"strings"
 )
+
+var ansiEscape = regexp.MustCompile(`\x1b\[[0-9;]*[A-Za-z]`)
 
 // canonNativeCell converts the text octosql's Value.String() prints for a scalar into canonical form.
 // Only sound for ints, floats, booleans, NULL and quote-free, separator-free strings (the generators using it comply).
@@ -28,6 +31,8 @@ func ParseTableOut(out string) ([]Row, error) {
 	var hdr []string
 	var rows []Row
 	seenBorder := 0
+	// live_table redraws the table while the query runs (cursor-up / erase-line escape sequences between the frames)
+	out = ansiEscape.ReplaceAllString(out, "")
 	for _, line := range strings.Split(out, "\n") {
 		if strings.HasPrefix(line, "+") {
 			seenBorder++
